@@ -136,6 +136,7 @@ Variable E : env.
 Hypothesis savepoint_pushes : forall n t, sq_save E n t = ref_save n t.
 Hypothesis rollback_to_exact : forall n t, sq_rbto E n t = ref_rbto n t.
 Variable C : cfg.
+Hypothesis savepoints : c_nosp C = false.
 Variable fault : nat -> bool.
 
 Lemma stmt_errs_top : forall e l x r, stmt_errs (OC e l x r) = stmt_errs_l l.
@@ -160,7 +161,7 @@ Proof.
     rewrite Hfl in Hrb, Hdr.
     assert (Htx1 : s_tx s1 = Some (mkTx db0 ([] ++ []))) by reflexivity.
     assert (Hg1 : gen_ok (s_gen s1) ([] ++ [])) by (intros k t []).
-    destruct (body_inv E savepoint_pushes rollback_to_exact C fault p [] None s1 r l h s2 db0 [] []
+    destruct (body_inv E savepoint_pushes rollback_to_exact C savepoints fault p [] None s1 r l h s2 db0 [] []
                 Eb Htx1 (sub_nil _) Hsc Hg1 Hrb Hdr) as [t' [local' HI]].
     destruct HI as (A1 & A2 & A3 & A4 & A5 & A6 & A7 & A8 & A9 & nops & B1 & B2 & B3).
     cbn [app fu] in A2.
